@@ -71,3 +71,24 @@ def max_complete_level(levels):
     while has_complete_level(levels, L + 1):
         L += 1
     return L
+
+
+def ancestor(rng, pts, lev, min_points=3):
+    """An earlier stage of the same refinement tree: a random non-empty subset of the deepest points (always leaves) is removed,
+    possibly several times.  This is what an adaptive run hands to one grid object step after step (grids grow by refinement)."""
+    P, L = list(pts), list(lev)
+    for _ in range(rng.choice([1, 1, 2, 3])):
+        m = max(L)
+        if m == 0:
+            break
+        idx = [i for i, l in enumerate(L) if l == m]
+        if len(P) - 1 < min_points:
+            break
+        drop = set(rng.sample(idx, rng.randint(1, len(idx))))
+        while len(P) - len(drop) < min_points:
+            drop.pop()
+        if not drop:
+            break
+        P = [p for i, p in enumerate(P) if i not in drop]
+        L = [l for i, l in enumerate(L) if i not in drop]
+    return P, L
